@@ -391,6 +391,23 @@ macro_rules! check_value {
 
 use check_value;
 
+/// Re-exports of operator structs for the verification harness.
+#[cfg(rten_verif)]
+pub mod verif_ops {
+    #[cfg(feature = "fft")]
+    pub use super::fft::*;
+    #[cfg(feature = "random")]
+    pub use super::random::*;
+    pub use super::transform_inputs::*;
+    pub use super::{
+        attention::*, binary_elementwise::*, compute_shape::*, concat::*, control_flow::*,
+        conv::*, conv_transpose::*, convert::*, einsum::*, embedding::*, gather::*, generate::*,
+        grid_sample::*, identity::*, layout::*, matmul::*, non_max_suppression::*, norm::*,
+        pad::*, pooling::*, quantize::*, reduce::*, resize::*, rnn::*, scatter::*, sequence::*,
+        slice::*, split::*, trilu::*, unary_elementwise::*, variadic_elementwise::*,
+    };
+}
+
 #[cfg(test)]
 mod tests {
     use rten_tensor::NdTensor;
